@@ -56,6 +56,9 @@ type Case struct {
 	Latency  string `json:"latency,omitempty"` // MapStream: "", "desc", "head"
 	Par      int    `json:"par,omitempty"`
 	Buf      int    `json:"buf,omitempty"`
+	// LaxSources: the sources answer a call whose context has already ended like any other call (an in-memory
+	// source need not look at its context); the combinator then sees items and End arrive under an ended context.
+	LaxSources bool `json:"lax_sources,omitempty"`
 	// EWraps: the error E that the source / callback fails with also wraps a context error
 	// (1 = context.Canceled, 2 = context.DeadlineExceeded) - an upstream call of its own timed out, say.
 	// It is still E and has to surface as E.
@@ -210,6 +213,7 @@ func gaps(n int, d time.Duration) []time.Duration {
 // mainSource builds the single int source with the fault applied.
 func (e *Env) mainSource() *sk.RecStream[int] {
 	r := sk.NewRecStream("src", e.c.Input)
+	r.IgnoreCtx = e.c.LaxSources
 	r.Gaps = gaps(len(e.c.Input), e.srcGap)
 	r.EndGap = e.srcGap + time.Duration(e.c.EndGapMs)*time.Millisecond
 	r.CloseDelay = time.Duration(e.c.CloseMs) * time.Millisecond
@@ -247,6 +251,7 @@ func (e *Env) nestSources(applyFault bool) []*sk.RecStream[int] {
 	f := e.c.Fault
 	for i, in := range nest {
 		r := sk.NewRecStream(fmt.Sprintf("inner%d", i), in)
+		r.IgnoreCtx = e.c.LaxSources
 		last := i == len(nest)-1
 		if applyFault {
 			lp, lp2 := -1, -1
@@ -674,6 +679,7 @@ func Build(c Case) (Subject, *Env, error) {
 			ss[i] = inners[i]
 		}
 		outer := sk.NewRecStream("outer", ss)
+		outer.IgnoreCtx = e.c.LaxSources
 		if c.Fault.Outer {
 			script(e, outer, c.Fault.P, c.Fault.P2)
 		}
@@ -690,6 +696,7 @@ func Build(c Case) (Subject, *Env, error) {
 			cp[i] = append([]int{}, nest[i]...)
 		}
 		outer := sk.NewRecStream("outer", cp)
+		outer.IgnoreCtx = e.c.LaxSources
 		script(e, outer, min(c.Fault.P, len(cp)), min(c.Fault.P2, len(cp)))
 		addSource(e, outer, nil)
 		return itemStream{stream.FlattenSlices[int](outer)}, e, nil
